@@ -471,6 +471,10 @@ ReadBackAt(s, A, v) ==
 NonAliasingAt(s, A, v) ==
     LET w == Write(s, A, v) IN
     \A B \in Watch \ { A } : <<A, B>> \notin Coupled => Read(w.s, B) = Read(s, B)
+\* the same with the read-backs of s tabulated beforehand: rd = [B \in Watch |-> Read(s, B)]
+NonAliasingTab(s, rd, A, v) ==
+    LET w == Write(s, A, v) IN
+    \A B \in Watch \ { A } : <<A, B>> \notin Coupled => Read(w.s, B) = rd[B]
 \* ... and of the state that no register shows directly (timer counters, unselected DMA channels,
 \* queue lengths): a write changes only its own device
 Touches(A) == LET k == RegOf(A).k  d == RegOf(A).key[1] IN
